@@ -156,8 +156,9 @@ func (c *layoutCase) render() (src string, model []string, decls [][]declRef) {
 	id := 0
 	blank := func() { model = append(model, "b") }
 	for si, s := range c.Sections {
-		grouped := s.Kind == "struct" || s.Kind == "const" || s.Kind == "var" || s.Kind == "type"
+		grouped := s.Kind == "struct" || s.Kind == "nested" || s.Kind == "const" || s.Kind == "var" || s.Kind == "type"
 		indent := ""
+		inner := ""
 		sname := fmt.Sprintf("S%d", si)
 		switch s.Kind {
 		case "linedir":
@@ -186,6 +187,18 @@ func (c *layoutCase) render() (src string, model []string, decls [][]declRef) {
 			model = append(model, "d", "1", "-")
 			decls = append(decls, []declRef{{obj: sname}})
 			indent = "\t"
+		case "nested":
+			// a struct one of whose fields has an unnamed struct, slice-of-struct or interface type written out in place: the
+			// rows are the fields (methods) of that inner type — declarations two levels deep
+			fmt.Fprintf(&b, "type %s struct {\n", sname)
+			model = append(model, "d", "1", "-")
+			decls = append(decls, []declRef{{obj: sname}})
+			hdr := []string{"Spec struct {", "Items []struct {", "Hooks interface {"}[si%3]
+			inner = strings.Fields(hdr)[0]
+			b.WriteString("\t" + hdr + "\n")
+			model = append(model, "d", "1", "-")
+			decls = append(decls, []declRef{{obj: sname, field: inner}})
+			indent = "\t\t"
 		case "const", "var", "type":
 			if s.Hdr != "" {
 				fmt.Fprintf(&b, "%s ( // %s\n", s.Kind, s.Hdr)
@@ -269,6 +282,24 @@ func (c *layoutCase) render() (src string, model []string, decls [][]declRef) {
 						text = fmt.Sprintf("%s%s %s", kw, n1, []string{"int", "func(s string) error", "struct{ L, R int }", "int", "func(n int) (v int, err error)"}[id%5])
 					}
 					refs = []declRef{{obj: n1}}
+				case "nested":
+					switch {
+					case inner == "Hooks" && r.H == 3:
+						text = fmt.Sprintf("%s(\n%s\tint,\n%s) error", n1, indent, indent)
+						refs = []declRef{{obj: sname, field: inner + "." + n1}}
+					case inner == "Hooks":
+						text = fmt.Sprintf("%s(a int) error", n1)
+						refs = []declRef{{obj: sname, field: inner + "." + n1}}
+					case r.H == 3:
+						text = fmt.Sprintf("%s func(\n%s\tint,\n%s) error", n1, indent, indent)
+						refs = []declRef{{obj: sname, field: inner + "." + n1}}
+					case r.Multi:
+						text = fmt.Sprintf("%s, %s int", n1, n2)
+						refs = []declRef{{obj: sname, field: inner + "." + n1}, {obj: sname, field: inner + "." + n2}}
+					default:
+						text = fmt.Sprintf("%s %s", n1, []string{"int", "string `json:\"x\"`", "[]byte"}[id%3])
+						refs = []declRef{{obj: sname, field: inner + "." + n1}}
+					}
 				case "struct":
 					switch {
 					case r.H == 3:
@@ -301,6 +332,11 @@ func (c *layoutCase) render() (src string, model []string, decls [][]declRef) {
 		case "struct":
 			b.WriteString("}\n")
 			blank()
+		case "nested":
+			b.WriteString("\t}\n")
+			blank()
+			b.WriteString("}\n")
+			blank()
 		case "const", "var", "type":
 			b.WriteString(")\n")
 			blank()
@@ -322,16 +358,34 @@ func lookupDecl(p gengotypes.Package, d declRef) types.Object {
 	if o == nil || d.field == "" {
 		return o
 	}
-	st, ok := o.Type().Underlying().(*types.Struct)
-	if !ok {
-		return nil
-	}
-	for i := 0; i < st.NumFields(); i++ {
-		if st.Field(i).Name() == d.field {
-			return st.Field(i)
+	t := o.Type()
+	var cur types.Object
+	for _, name := range strings.Split(d.field, ".") {
+		cur = nil
+		u := t.Underlying()
+		if sl, ok := u.(*types.Slice); ok {
+			u = sl.Elem().Underlying()
 		}
+		switch x := u.(type) {
+		case *types.Struct:
+			for i := 0; i < x.NumFields(); i++ {
+				if x.Field(i).Name() == name {
+					cur = x.Field(i)
+				}
+			}
+		case *types.Interface:
+			for i := 0; i < x.NumExplicitMethods(); i++ {
+				if x.ExplicitMethod(i).Name() == name {
+					cur = x.ExplicitMethod(i)
+				}
+			}
+		}
+		if cur == nil {
+			return nil
+		}
+		t = cur.Type()
 	}
-	return nil
+	return cur
 }
 
 var siblingIdent = regexp.MustCompile(`\b([SNM])(\d+)\b`)
@@ -472,6 +526,9 @@ func (c *layoutCase) Oracle(out string) string {
 		var above []string
 		if s.Kind == "struct" {
 			want = append(want, "doc="+showTagMap(map[string][]string{}, nil)+";comment=")
+		}
+		if s.Kind == "nested" { // the struct and its field with the written-out type: neither has a comment
+			want = append(want, "doc="+showTagMap(map[string][]string{}, nil)+";comment=", "doc="+showTagMap(map[string][]string{}, nil)+";comment=")
 		}
 		for _, r := range s.Rows {
 			switch r.K {
@@ -694,7 +751,7 @@ func genLayout(r *Rng) *layoutCase {
 			}
 			c.Sections = append(c.Sections, sec)
 		}
-		sec := LSection{Kind: Pick(r, []string{"top-var", "top-type", "top-const", "struct", "struct", "const", "var", "type"})}
+		sec := LSection{Kind: Pick(r, []string{"top-var", "top-type", "top-const", "struct", "struct", "const", "var", "type", "nested", "nested"})}
 		if !strings.HasPrefix(sec.Kind, "top-") && r.Chance(30) {
 			sec.Hdr = Pick(r, []string{"settings", "+gengo:rec", "+k=v", "opens here"})
 		}
